@@ -404,6 +404,40 @@ def pool_for(kind):
     raise ValueError(kind)
 
 
+def chain_pairs(qualname, limit=400, seed=0):
+    """for a constructor whose contract states `text == text of a chain of operations` (contract['value']): over the pool of
+    its argument kinds, the pattern the real constructor emits and the pattern of the chain, for every call that returns"""
+    import contracts
+    c = contracts.ALL[qualname]
+    names = list(c["params"])
+    pools = [pool_for(c["params"][n]) for n in names]
+    total = 1
+    for p in pools:
+        total *= len(p)
+    rnd = random.Random(seed)
+    combos = itertools.product(*pools)
+    if total > limit:
+        combos = (tuple(rnd.choice(p) for p in pools) for _ in range(limit))
+    out, seen, n_ok = [], set(), 0
+    for combo in combos:
+        args = {nm: v for nm, (lbl, v) in zip(names, combo)}
+        if args.get("self") is NEW:
+            owner, _ = resolve(qualname)
+            args["self"] = owner.__new__(owner)
+        try:
+            call_real(qualname, dict(args))
+            real = str(args["self"])
+            chain = str(specrt.eval_clause(c["value"], dict(args)))
+        except BaseException:
+            continue
+        n_ok += 1
+        if (real, chain) in seen:
+            continue
+        seen.add((real, chain))
+        out.append({"args": {nm: lbl for nm, (lbl, v) in zip(names, combo)}, "real": real, "chain": chain})
+    return {"returned": n_ok, "pairs": out}
+
+
 def bounded(qualname, limit=20000, seed=0):
     """the contract of `qualname` on the product of the pools of its parameter kinds (sampled beyond `limit`)"""
     import contracts
